@@ -56,7 +56,9 @@ def variants(rnd, spec):
     ex = spec.clone()
     if which in ("loop-order", "both", "all"):
         om.loop_order = None
-        ex.loop_order = {e.out.name: D.default_loop_order(spec, e) for e in spec.exprs}
+        # (an output written by two Einsums has ONE entry for both: left omitted on both sides)
+        ex.loop_order = {e.out.name: D.default_loop_order(spec, e) for e in spec.exprs
+                         if sum(1 for e2 in spec.exprs if e2.out.name == e.out.name) == 1}
         if rnd.random() < 0.3 and len(spec.exprs) > 1:
             # omit for one Einsum only
             keep = rnd.choice(spec.exprs).out.name
